@@ -13,6 +13,7 @@ import common
 import scan_real as sr
 import scan_streams
 import tree_stream
+import pytree_stream
 from gen import programs
 from props import C15
 
@@ -143,6 +144,17 @@ def correspond(ctx):
     fails += tr["oracle_failures"][:20]
     fails += tree_stream.regressions()
     dist["trees"] = dict(tr["distribution"], **tr["counts"])
+    # Python indentation trees (`Props/C01pyfull.lean`, `C01pytext.lean`: unconditional for well-formed trees;
+    # 40 % of the files carry comments and go through the driver op `pytoks`)
+    pt = pytree_stream.correspond(ctx.rng("pytrees"), ctx.pick(300, 3000), sweep_upto=ctx.pick(0, 60))
+    for key in ("lexer_mismatch", "generator_bug", "model_errors"):
+        for x in pt.get(key, [])[:10]:
+            dis.append({"stream": "pytree/%s" % key, "input": x.get("input"), "model": str(x.get("forest") or x.get("why") or x.get("model"))[:300],
+                        "impl": str(x.get("real", ""))[:300]})
+    fails += pt["oracle_failures"][:20]
+    dist["pytrees"] = dict(pt["distribution"], **pt.get("counts", {}))
+    tr["evaluations"] += pt["evaluations"]; tr["distinct_nontrivial"] += pt["distinct_nontrivial"]
+    tr["rule"] += " PLUS " + pt["rule"]
     nontrivial |= {("tree",) + tuple(x) for x in []}
     return {
         "evaluations": len(allc) + tr["evaluations"], "distinct_nontrivial": len(nontrivial) + tr["distinct_nontrivial"],
@@ -187,6 +199,7 @@ def search(ctx, hints):
             fails.append({"input": {"language": lang, "code": code}, "observed": got, "required": want})
     tr = tree_stream.correspond(ctx.rng("treesearch"), 900, sweep_upto=20)
     fails += tr["oracle_failures"] + tree_stream.regressions()
+    fails += pytree_stream.correspond(ctx.rng("pytreesearch"), 500, sweep_upto=20)["oracle_failures"]
     fails.sort(key=lambda f: len(f["input"]["code"]))
     return fails[:10]
 
